@@ -29,7 +29,9 @@ m = dict(version=1, setup_cmd="bin/setup",
                     baseline_off_cmd="cd /repo && go test -mod=mod -vet=off -count=1 ./... ; cd /repo/v2 && go test -mod=mod -vet=off -count=1 ./...",
                     source_commits=[l.split()[0] for l in os.popen("git -C /repo log --format='%h %s' --grep='^verif hooks'").read().splitlines()],
                     add_only=True),
-         engines=[dict(name="shared", path="coq/Model/Shared.v", serves_properties=[c["property_id"] for c in checks if c["engine"] == "shared"],
+         engines=[dict(name="lease", path="coq/Model/Lease.v", serves_properties=[c["property_id"] for c in checks if c["engine"] == "lease"],
+                       kind_free_text="pure functional model of the Azure Blob lease manager; harness drives the real managers of both generations with fakes and through the real SDK client on an in-process transport"),
+                  dict(name="shared", path="coq/Model/Shared.v", serves_properties=[c["property_id"] for c in checks if c["engine"] == "shared"],
                        kind_free_text="executable model of one shared-resource instance in Coq, extracted to OCaml; Go synctest harness with N instances on one fake lease store; replay = the history determines the label sequence, the model decides enabledness and values"),
                   dict(name="batcher", path="coq/Model/Batcher.v", serves_properties=[c["property_id"] for c in checks if c["engine"] == "batcher"],
                        kind_free_text="executable LTS model of the Batcher (both generations) in Coq, extracted to OCaml; Go synctest harness records histories of the real code; replay = trace inclusion with hidden steps")],
